@@ -50,7 +50,7 @@ P = {
          ['Length, Ellipse, area preservation, StripNearEqual/StripDuplicates (floating point / std::unique)'], '5 C20'),
 }
 NA = {
- 'C02': 'No per-function contract obligation specific to rectilinear exactness is both expressible and necessary: the mechanism is DoHorizontal + ConvertHorzSegsToJoins + ProcessHorzJoins + CheckJoinLeft/Right over the unbounded AEL and OutPt rings (CBMC contracts have no inductive heap predicates); the generic facts it uses (IsCollinear exact, TopX exact at end points) are proved under C18/C10.',
+ 'C02': 'No per-function contract obligation specific to rectilinear exactness is both expressible and necessary: the mechanism is DoHorizontal + ConvertHorzSegsToJoins + ProcessHorzJoins + CheckJoinLeft/Right over the unbounded AEL and OutPt rings (CBMC contracts have no inductive heap predicates); the generic facts it uses are proved elsewhere and would be the only content of a C02 check: IsCollinear exact (C18), TopX returns top.x for vertical edges and the end points exactly (C10_topx), CleanCollinear leaves no removable vertex (C03_cleancollinear, bounded).',
 }
 
 
